@@ -72,7 +72,7 @@ theorem C13_replay_reproduces_state (cfg : Cfg) (pol : Policy) (hpol : TimeFree 
     (hreq : C13.NoRequirements (C13.live cfg pol now e timeout acts)) :
     ∃ rep, replayTicks cfg pol initState now0 clk (persistedTicks (C13.live cfg pol now e timeout acts).log) = some rep ∧
       SimSt rep.st (C13.live cfg pol now e timeout acts).st ∧
-      roundtrip cfg rep.st = roundtrip cfg (C13.live cfg pol now e timeout acts).st ∧
+      SimSt (roundtrip cfg rep.st) (roundtrip cfg (C13.live cfg pol now e timeout acts).st) ∧
       ExitRel rep.exit (C13.live cfg pol now e timeout acts).outcome := by
   have hr0 := rewind_init cfg now0
   have hf := init_fresh cfg now e timeout
@@ -189,6 +189,32 @@ theorem C13.hasStep_mem {cfg : Cfg} {n : Nat} (h : cfg.hasStep n = true) : ∃ c
   obtain ⟨c, hc⟩ := h
   exact ⟨c, List.mem_of_find?_eq_some hc, by simpa using List.find?_some hc⟩
 
+theorem C13.pendingEvs_sim {a b : StepState} (h : SimSS a b) : pendingEvs a = pendingEvs b := by
+  have hq : a.queue.map (·.ev) = b.queue.map (·.ev) := by
+    have := congrArg (List.map (·.ev)) h.queue
+    simpa [List.map_map, Function.comp_def, eraseA] using this
+  have hi : a.inProg.map (·.ev) = b.inProg.map (·.ev) := by
+    have := congrArg (List.map (·.ev)) h.inProg
+    simpa [List.map_map, Function.comp_def, eraseIP] using this
+  simp only [pendingEvs, hq, hi]
+
+/-- `StateKept` does not look at first-attempt times -/
+theorem C13.stateKept_sim {cfg : Cfg} {a b : State} {R : Runner} (h : SimSt a b) (hk : C13.StateKept cfg a R) :
+    C13.StateKept cfg b R := by
+  refine ⟨hk.running.trans h.running, ?_, ?_, ?_, hk.started⟩
+  · intro n hn
+    rw [← C13.pendingEvs_sim (h.workers n)]
+    exact hk.pending n hn
+  · intro n hn
+    rw [← (h.workers n).collected]
+    exact hk.collected n hn
+  · intro n hn
+    rw [hk.waiters n hn]
+    have := congrArg (List.map C13.waiterKey) (h.workers n).waiters
+    have e : ∀ l : List Waiter, (l.map eraseW).map C13.waiterKey = l.map C13.waiterKey := by
+      intro l; rw [List.map_map]; rfl
+    rwa [e, e] at this
+
 theorem C13.stateKept_of_shape (cfg : Cfg) (hwf : cfg.WF) (live : State) (nowR : Int) (timeout : Option Nat) (R : Runner)
     (hR : ResumedShape cfg (roundtrip cfg live) nowR timeout R) : C13.StateKept cfg live R := by
   have hnd : ((sortedSteps cfg).map (·.name)).Nodup := (sortedSteps_names_perm cfg).nodup_iff.mpr hwf
@@ -241,7 +267,10 @@ theorem C13.stateKept_of_shape (cfg : Cfg) (hwf : cfg.WF) (live : State) (nowR :
     exact this hcmd
 
 /-- **C13 (state kept), at every prefix of a running run**: the restart resumes the run, and the
-resumed runner is `Runner.init` on the serialised live state: its reducer state is the rewound
+resumed runner is `Runner.init` on the serialised replayed state `S`, which agrees with the live
+state up to `first_attempt_at` values (a waiter keeps the first-attempt time of the invocation
+suspended in it; for an invocation the replay started that is the replay's clock): its reducer
+state is the rewound
 deserialised live state — per step a permutation of the live queued + in-progress invocations,
 same buffers, waiters, running flag, a started worker for everything in progress — while its tick
 buffer holds only rehydration ticks, its timer heap only the re-armed workflow timeout, and its
@@ -254,7 +283,7 @@ theorem C13_state_kept (cfg : Cfg) (hwf : cfg.WF) (pol : Policy) (hpol : TimeFre
     (hticks : ticksOf (C13.live cfg pol now e timeout acts).log ≠ [])
     (hrun : (C13.live cfg pol now e timeout acts).st.isRunning = true) :
     ∃ R, restartRun cfg pol none (persistedTicks (C13.live cfg pol now e timeout acts).log) now0 clk nowR mkStart timeout' = .resume R ∧
-      ResumedShape cfg (roundtrip cfg (C13.live cfg pol now e timeout acts).st) nowR timeout' R ∧
+      (∃ S, SimSt S (C13.live cfg pol now e timeout acts).st ∧ ResumedShape cfg (roundtrip cfg S) nowR timeout' R) ∧
       C13.StateKept cfg (C13.live cfg pol now e timeout acts).st R := by
   obtain ⟨rep, h1, h2, h3, h4⟩ := C13_replay_reproduces_state cfg pol hpol now e timeout acts now0 clk hlog hreq
   rw [C13.persisted_eq hreq] at h1 ⊢
@@ -265,10 +294,11 @@ theorem C13_state_kept (cfg : Cfg) (hwf : cfg.WF) (pol : Policy) (hpol : TimeFre
   | nil => exact absurd htk hticks
   | cons t ts =>
     rw [htk] at h1
-    have hS : (roundtrip cfg r.st).isRunning = true := by simpa [roundtrip, deser, ser] using hrun
-    refine ⟨Runner.init cfg (roundtrip cfg r.st) nowR none timeout', ?_, init_resumed cfg _ nowR timeout',
-      C13.stateKept_of_shape cfg hwf r.st nowR timeout' _ (init_resumed cfg _ nowR timeout')⟩
-    simp only [restartRun, contextFromTicks, Option.getD_none, h1, hx, Option.bind_none, h3, hS, if_true]
+    have hS : (roundtrip cfg rep.st).isRunning = true := by
+      rw [h3.running]; simpa [roundtrip, deser, ser] using hrun
+    refine ⟨Runner.init cfg (roundtrip cfg rep.st) nowR none timeout', ?_, ⟨rep.st, h2, init_resumed cfg _ nowR timeout'⟩,
+      C13.stateKept_sim h2 (C13.stateKept_of_shape cfg hwf rep.st nowR timeout' _ (init_resumed cfg _ nowR timeout'))⟩
+    simp only [restartRun, contextFromTicks, Option.getD_none, h1, hx, Option.bind_none, hS, if_true]
 
 /-! ## the full statement: nothing of the live runner is lost -/
 
@@ -470,13 +500,13 @@ theorem C13_refuted_second_restart : ¬ C13_statement_second_restart := by
 /-! ### refutation 4: `wait_for_event` requirements do not survive the store -/
 
 /-- the statement without the `NoRequirements` guard: replaying the persisted log rebuilds the
-serialised live state -/
+serialised live state (up to first-attempt times) -/
 def C13_statement_requirements : Prop :=
   ∀ (cfg : Cfg) (_ : cfg.WF) (pol : Policy) (_ : TimeFree pol) (now : Int) (e : Ev) (timeout : Option Nat)
     (acts : List Act) (now0 : Int) (clk : Nat → Int),
     C13.WellFormedLog (C13.live cfg pol now e timeout acts) →
     ∃ rep, replayTicks cfg pol initState now0 clk (persistedTicks (C13.live cfg pol now e timeout acts).log) = some rep ∧
-      roundtrip cfg rep.st = roundtrip cfg (C13.live cfg pol now e timeout acts).st
+      SimSt (roundtrip cfg rep.st) (roundtrip cfg (C13.live cfg pol now e timeout acts).st)
 
 def C13.cfg4 : Cfg :=
   { steps := [{ name := 0, accepted := [0], numWorkers := 1, hasRetry := false },
@@ -515,7 +545,7 @@ theorem C13_refuted_requirements : ¬ C13_statement_requirements := by
   rw [h1] at hw
   have := hw.2.2
   simp only [Prod.mk.injEq] at this
-  rw [h2, hw.2.1] at this
+  rw [C13.pendingEvs_sim (h2.workers 2), hw.2.1] at this
   exact absurd this.2 (by decide)
 
 /-! ## which handlers a starting server touches -/
